@@ -298,6 +298,10 @@ MUTANTS: List[Dict] = [
     M("query2-swap-results", "breaking", SCFG, "        return sorted(exiting), sorted(exits)\n", "        return sorted(exits), sorted(exiting)\n", ["QUERY-2"]),
     M("query3-seed-begin", "breaking", SCFG, "        to_vist = list(self.graph[begin].jump_targets)\n", "        to_vist = [begin]\n", ["QUERY-3"]),
     M("query3-raw-expand", "breaking", SCFG, "                    to_vist.extend(self.graph[block].jump_targets)\n", "                    to_vist.extend(self.graph[block]._jump_targets)\n", ["QUERY-3", "STORE-12"]),
+    M("store8-reparent-negated", "breaking", TR, "    for k, v in region.subregion.graph.items():\n        if isinstance(v, RegionBlock):\n", "    for k, v in region.subregion.graph.items():\n        if not isinstance(v, RegionBlock):\n", ["STORE-8"]),
+    M("disp9-drop-self-parent", "breaking", SCFG, '                object.__setattr__(region, "parent_region", scfg.region)\n', "", ["DISP-9"]),
+    M("ok-namegen-plus-two", "benign", SCFG, '            name = "__scfg_" + str(kind) + "_var_" + str(idx) + "__"\n            self.kinds[kind] = idx + 1\n        else:', '            name = "__scfg_" + str(kind) + "_var_" + str(idx) + "__"\n            self.kinds[kind] = idx + 2\n        else:', []),
+    M("ok-head-set-not-recomputed", "benign", TR, "    # Recompute regions.\n    head_region_blocks = find_head_blocks(scfg, begin)\n    branch_regions = find_branch_regions(scfg, begin, end)\n    tail_region_blocks = find_tail_blocks(\n        scfg, begin, head_region_blocks, branch_regions\n    )\n\n    # extract subregions", "    # Recompute regions.\n    branch_regions = find_branch_regions(scfg, begin, end)\n    tail_region_blocks = find_tail_blocks(\n        scfg, begin, head_region_blocks, branch_regions\n    )\n\n    # extract subregions", [], "the head chain is not changed by the insertions"),
     # ------------------------------------------------ benign
     M("ok-rename-locals", "benign", TR, None, None, [], "rename locals of loop_restructure_helper (computed edit)"),
     M("ok-sorted-key", "benign", TR, "    for name in sorted(loop):\n", "    for name in sorted(loop, key=str):\n", []),
